@@ -56,7 +56,7 @@ def scan_structs(root):
                     elif d == 0: flat.append(ch)
                 fields = []
                 for part in ''.join(flat).split(','):
-                    mm = re.match(r'\s*(?:pub(?:\s*\([^)]*\))?\s+)?(\w+)\s*:', part)
+                    mm = re.match(r'\s*(?:pub(?:\s*\([^)]*\))?\s+)?(?:r#)?(\w+)\s*:', part)
                     if mm:
                         fields.append(mm.group(1))
                 if fields:
@@ -74,7 +74,7 @@ def scan_type_info(root):
             if not f.endswith('.rs'):
                 continue
             src = open(os.path.join(dp, f)).read()
-            for m in re.finditer(r'\bstruct\s+(\w+)\s*<([^>{;]*)>', src):
+            for m in re.finditer(r'\b(?:struct|enum)\s+(\w+)\s*<([^>{;]*)>', src):
                 for prm in m.group(2).split(','):
                     mm = re.match(r'\s*(\w+)\s*(?::[^=]*)?=\s*(.+)', prm)
                     if mm:
